@@ -148,7 +148,7 @@ Definition reset_memory (h w : Z) (colors : list Z) (own : bool) : Rand state :=
   bind (lift (draw g1 (cartesian [1] (zrange 2 (w - 2))) Floor)) (fun g2 =>
   bind (lift (draw g2 (cartesian [h - 2] (zrange 2 (w - 2))) Floor)) (fun g3 =>
   bind (lift (draw g3 (cartesian (zrange 2 (h - 2)) [w / 2]) Floor)) (fun g4 =>
-  bind (rchoices_of gl colors 2 0) (fun cs =>
+  bind (rchoices_of gl (isort colors) 2 0) (fun cs =>            (* _sorted_colors(colors): a set has no order of its own *)
   bind (rchoices_of gl [1; w - 2] 2 0) (fun xs =>
   match cs, xs with
   | [cg; cb], [xg; xb] =>
@@ -172,7 +172,7 @@ Definition reset_memory_rooms (h w : Z) (ysp xsp : list Z) (colors : list Z) (nu
   bind (lift (floor_positions g)) (fun fl =>
   bind (rchoices_of gl fl (1 + num_beacons + num_exits) (0, 0)) (fun ps =>
   bind (rchoice_of gl all_oris FORWARD) (fun oa =>
-  bind (rchoices_of gl colors num_exits 0) (fun cols =>
+  bind (rchoices_of gl (isort colors) num_exits 0) (fun cols =>
   let pa := hd (0, 0) ps in
   let good := hd 0 cols in
   let bps := firstn (Z.to_nat num_beacons) (tl ps) in
